@@ -127,6 +127,10 @@ def cases(chk):
         if _relevant(d):
             for k in ("lead", "trail"):
                 yield "recv", {"d": dict(d, **{k: 1}), "flags": "1111", "enc": r.choice([0, 1])}
+    # the sender is a device of the account (user:device@server): acknowledgements and receipts go back to that very address
+    for d in c06.SUPPORTED:
+        if _relevant(d):
+            yield "recv", {"d": dict(d, dev=1), "flags": "1111", "enc": r.choice([0, 1])}
     # ... and the unknown element carrying data of a size around every integer literal of the stanza class's source (the library formats a stanza
     # for its log lines BEFORE it answers it; data beyond a limit is shortened there): 501 and 4096 bytes, literals +-1
     from lib.probes import harvest_ints
